@@ -9,6 +9,9 @@ from fractions import Fraction
 
 INF = float('inf')
 TIE = Fraction(1, 10 ** 9)
+#: what a float computation of a transfer may leave over of its volume by rounding alone
+#: (a handful of windows, each exact to 2**-53): anything above this is a real remainder
+TIE_REMAINING = Fraction(1, 10 ** 14)
 
 
 def frac(value):
@@ -96,7 +99,7 @@ def simulate(throughput, participants, removals):
             biggest = max((st['limit'] for st in active), default=0)
             small = [limit for _, limit in recent_done]
             small.extend(st['limit'] for st in active
-                         if st['remaining'] <= TIE * frac(st['rounds'][st['index']][1]))
+                         if st['remaining'] <= TIE_REMAINING * frac(st['rounds'][st['index']][1]))
             if small and biggest > 10 ** 6 * min(small):
                 ambiguous = True
         current = rates()
